@@ -40,6 +40,7 @@ BASES = {
     'tmpl2': ([('start', 'list ";" list?'), ('list', 'seq{item}'), ('seq{x}', 'x ("," x)*'), ('item', 'A | B -> bee'), ('A', '"a"'), ('B', '"b"')], 'ab,;', 4),
     'tmpl3': ([('start', 'list'), ('list', '_sep{item, _COMMA} | "[" _sep{A, "b"} "]"'), ('_sep{x, s}', 'x (s x)*'), ('item', 'A'), ('A', '"a"'), ('_COMMA', '","')], 'ab,[]', 5),
     'tmpl4': ([('start', 'w+'), ('w', 'wrap{A} | wrap{w}'), ('wrap{x}', '_LP x _RP'), ('_LP', '"("'), ('_RP', '")"'), ('A', '"a"')], 'a()', 6),
+    'tmpl6': ([('start', 'seq{x} ";" x?'), ('seq{x}', 'x ("," x)*'), ('x', 'A | B'), ('A', '"a"'), ('B', '"b"')], 'ab,;', 5),   # a rule named like the template parameter
     'chain': ([('start', 'a+'), ('a', 'b "!" | b'), ('b', 'c c?'), ('c', 'T | "(" a ")"'), ('T', 'U "t"?'), ('U', '"u"')], 'ut!()', 4),
 }
 
@@ -98,6 +99,10 @@ def build_case(base, S, deps, form, variant):
     names = [bare(h) for h, _ in defs]
     kept = [(h, b) for h, b in defs if bare(h) not in S]
     moved = [(h, b) for h, b in defs if bare(h) in S]
+    for h, b in moved:      # a module that defines a rule named like one of its own template parameters is invalid by itself
+        pm_ = re.search(r'\{([^}]*)\}', h)
+        if pm_ and any(q.strip() in S for q in pm_.group(1).split(',')):
+            return None
     used_by_main = set()
     for h, b in kept:
         used_by_main |= {i for i in idents(b) if i in S}
@@ -155,7 +160,13 @@ def build_case(base, S, deps, form, variant):
         inl.append((h, b2))
     for h, b in inl_moved:
         n = bare(h)
-        inl.append((header_with(h, imap.get(n, n)), rename(b, imap)))
+        h2, b2 = header_with(h, imap.get(n, n)), rename(b, imap)
+        pm = re.search(r'\{([^}]*)\}', h2)
+        if pm:      # a careful hand-inliner renames the bound parameter names of a moved template apart from everything else
+            pmap = {q.strip(): 'zzp' + q.strip() for q in pm.group(1).split(',')}
+            h2 = h2[:pm.start()] + '{' + ', '.join(pmap[q.strip()] for q in pm.group(1).split(',')) + '}' + h2[pm.end():]
+            b2 = rename(b, dict(imap, **pmap))
+        inl.append((h2, b2))
     if variant == 'local-clash':
         inl.append(extra_main[0])
     inlined = '\n'.join('%s: %s' % (h, b) for h, b in inl) + '\n'
@@ -218,7 +229,8 @@ def check_case(base, S, form, variant, res, only=None):
         with open(mainfile, 'w') as f:
             f.write(case['main'])
         cfg = {'base': base, 'moved': sorted(S), 'form': form, 'variant': variant, 'main': case['main'], 'module': list(case['files'].values())[0], 'inlined': case['inlined']}
-        for parser, opts in (('lalr', {}), ('earley', {'ambiguity': 'explicit'})):
+        kall = {'keep_all_tokens': True} if variant == 'keep-all' else {}
+        for parser, opts in (('lalr', dict(kall)), ('earley', dict(kall, ambiguity='explicit'))):
             if only and only['parser'] != parser:
                 continue
             if case['relative']:
@@ -277,7 +289,7 @@ def _has_label(t, labels):
 
 
 FORMS = ('single', 'group', 'rename', 'nested', 'relative')
-VARIANTS = ('plain', 'local-clash', 'override', 'extend')
+VARIANTS = ('plain', 'local-clash', 'override', 'extend', 'keep-all')       # keep-all: plain split built with keep_all_tokens=True
 
 
 def plan(tier, seed):
